@@ -25,7 +25,7 @@ SHIMS = {
 PROPS = {
     'C03': dict(
         title='origin map',
-        units=['pt', 'arms', 'rtmu', 'glue', 'derive', 'getstr'],
+        units=['pt', 'arms', 'rtmu', 'glue', 'derive', 'getstr', 'prologue'],
         shims=['A-btree', 'A-str', 'A-path/fs', 'A-arith', 'A-glue'],
         design='DESIGN.md 3/C03',
         technique='contract-based deductive verification (Verus) of the real PreprocessedText/Range code extracted from /repo on every run',
@@ -51,7 +51,7 @@ PROPS['C20'] = dict(
 )
 PROPS['C09'] = dict(
     title='bounded recursion',
-    units=['depth', 'wrap', 'rtmu', 'arms'],
+    units=['depth', 'wrap', 'rtmu', 'arms', 'prologue'],
     shims=['A-pplex'],
     design='DESIGN.md 3/C09',
     technique='contract-based deductive verification (Verus) of the mechanically sliced recursion skeleton (guards + recursive calls with real argument expressions) of the real functions, with a termination measure',
@@ -85,7 +85,7 @@ PROPS['C16'] = dict(
 ARMS_NOTE = 'The arms of preprocess_str are verified one by one (rule R-arm); the loop around them is verified in unit glue with the arm bodies outlined (A-glue): it establishes every arm precondition from one grammar invariant, keeps the text well formed, starts from the stated initial state and returns the accumulated text and table; an arm the contracts do not know makes the unit undecided. Callees carry contracts proved in other units (push/merge: pt; Locate::str: getstr; try_into fold: derive) or assumed on their real signature (preprocess_inner, resolve_text_macro_usage, identifier). Grammar invariants (each node has a contiguous leaf inside s, identifiers present) are preconditions.'
 PROPS['C04'] = dict(
     title='conditional compilation',
-    units=['arms', 'pphelp', 'glue', 'derive', 'getstr'],
+    units=['arms', 'pphelp', 'glue', 'derive', 'getstr', 'prologue'],
     shims=['A-glue', 'A-hashmap', 'A-str', 'A-node', 'A-pplex'],
     design='DESIGN.md 3/C04',
     technique='contract-based deductive verification (Verus) of the verbatim IfdefDirective / IfndefDirective arms against an IEEE 22.6 selection spec function, loop invariant over the `elsif chain',
@@ -194,7 +194,7 @@ PROPS['C17'] = dict(
 PROPS['C08'] = dict(
     title='totality',
     units=['pt', 'wrap', 'iter', 'conv', 'derive', 'getstr', 'arms', 'depth', 'pphelp', 'display', 'prologue', 'split', 'loc', 'rtmu', 'glue', 'kwstack'],
-    engines=[dict(module='gvc.engine', args=dict(analyses=('panics', 'faithful', 'nullable', 'frame')))],
+    engines=[dict(module='gvc.engine', args=dict(analyses=('panics', 'faithful', 'nullable', 'frame', 'errors')))],
     shims=['A-btree', 'A-str', 'A-path/fs', 'A-node', 'A-vec', 'A-nom', 'A-glue'],
     design='DESIGN.md 3/C08',
     technique='Verus: absence of overflow, out-of-range indexing, failed assert/unwrap in every function under contract; File/ReadUtf8/Include mapping of the wrappers; classified inventory of all panic sites',
@@ -218,8 +218,8 @@ PROPS['C03']['engines'] = [KANI, dict(module='vx.boundeng'), dict(module='gvc.en
 PROPS['C18']['engines'] = [dict(module='gvc.engine', args=dict(analyses=('pptotal', 'assumed', 'faithful'))), REPLAY]
 PROPS['C05']['engines'] = [dict(module='vx.boundeng'), dict(module='gvc.engine', args=dict(analyses=('shadow', 'kwsites', 'assumed', 'faithful')))]
 PROPS['C11']['engines'] = [dict(module='gvc.engine', args=dict(analyses=('shadow', 'kwsites', 'assumed', 'faithful')))]
-PROPS['C10']['engines'] = [dict(module='gvc.engine', args=dict(analyses=('assumed', 'faithful')))]
-PROPS['C09']['engines'] = [dict(module='gvc.engine', args=dict(analyses=('assumed',)))]
+PROPS['C10']['engines'] = [dict(module='gvc.engine', args=dict(analyses=('assumed', 'faithful', 'errors')))]
+PROPS['C09']['engines'] = [dict(module='gvc.engine', args=dict(analyses=('assumed', 'errors')))]
 PROPS['C04']['engines'] = [dict(module='gvc.engine', args=dict(analyses=('frame', 'assumed', 'kwsites', 'pptotal', 'faithful'))), REPLAY]
 PROPS['C06']['engines'] = [dict(module='gvc.engine', args=dict(analyses=('pptotal', 'faithful', 'shadow', 'assumed'))), dict(module='vx.boundeng'), REPLAY]
 
